@@ -28,6 +28,16 @@ Theorem C11_search_subtree_span : forall c u, wft (plug c u) ->
 Proof. exact search_subtree_span. Qed.
 Print Assumptions C11_search_subtree_span.
 
+(* the same through Python's index convention (non-negative index, or index - len; below -len: IndexError) —
+   repo commit 992a71c "fix: PrimitiveTree.searchSubtree accepts a negative index" *)
+Theorem C11_search_subtree_py_span : forall c u, wft (plug c u) ->
+  let l := flatten (plug c u) in let b := length (cpre c) in
+  search_subtree_py l (Z.of_nat b) = Ok (b, (b + size u)%nat) /\
+  search_subtree_py l (Z.of_nat b - zlen l) = Ok (b, (b + size u)%nat) /\
+  (forall i, i < - zlen l -> search_subtree_py l i = Err EIndex).
+Proof. exact search_subtree_py_span. Qed.
+Print Assumptions C11_search_subtree_py_span.
+
 (* ... and every index of the list is the root of such a subtree *)
 Theorem C11_every_index_roots_a_subtree : forall t i, (i < length (flatten t))%nat ->
   exists c u, t = plug c u /\ length (cpre c) = i.
@@ -99,6 +109,45 @@ Theorem C11_cx_one_point_closed : forall sub, (forall a, sub a tobj = true) ->
     (size t1' + size t2' = size t1 + size t2)%nat.                     (* cx_node_count *)
 Proof. exact cx_one_point_closed. Qed.
 Print Assumptions C11_cx_one_point_closed.
+
+(* FULL STATEMENT (property text: "every pair of such trees"), including the pair made of ONE tree object passed
+   twice:   forall t ds o1 o2 ds', typed sub top t -> cx_one_point_same (flatten t) ds = Ok ((o1, o2), ds') ->
+            exists t', o1 = flatten t' /\ typed sub top t'.
+   REFUTED for the same object (known finding C11.cx_same_object): the second slice assignment uses a slice computed
+   before the first one changed the list.  add(add(x, y), neg(neg(x))) crossed with itself at points 2 and 1 gives
+   the list [add; x; y; y; neg; neg; x] (orphan nodes).  C11_cx_one_point_closed above is the _partial: it holds
+   whenever the two arguments are distinct objects (which is what the functional model `cx_one_point` describes). *)
+Definition kf_add := mknode 30%N [0%N; 0%N] 0%N false 0.
+Definition kf_neg := mknode 31%N [0%N] 0%N false 0.
+Definition kf_x := mknode 32%N [] 0%N false 0.
+Definition kf_y := mknode 33%N [] 0%N false 0.
+Definition kf_tree := [kf_add; kf_add; kf_x; kf_y; kf_neg; kf_neg; kf_x].
+Theorem C11_cx_one_point_same_object_refuted :
+  complete kf_tree = true /\
+  exists ds o1 o2, cx_one_point_same kf_tree ds = Ok ((o1, o2), []) /\ complete o1 = false.
+Proof.
+  split; [vm_compute; reflexivity|].
+  exists [DChoice 1 0; DChoice 6 1; DChoice 6 0]. eexists. eexists. split; vm_compute; reflexivity.
+Qed.
+Print Assumptions C11_cx_one_point_same_object_refuted.
+
+Theorem C11_cx_leaf_biased_same_object_refuted :
+  exists ds o1 o2, cx_leaf_biased_same 0 1 kf_tree ds = Ok ((o1, o2), []) /\ complete o1 = false.
+Proof.
+  exists [DRandom 1 2; DRandom 1 2; DChoice 1 0; DChoice 3 2; DChoice 3 1]. eexists. eexists.
+  split; vm_compute; reflexivity.
+Qed.
+Print Assumptions C11_cx_leaf_biased_same_object_refuted.
+
+Theorem C11_cx_one_point_closed_partial : forall sub, (forall a, sub a tobj = true) ->
+  forall top1 top2 t1 t2 ds o1 o2 ds',
+  typed sub top1 t1 -> typed sub top2 t2 ->
+  (nret (root t1) = tobj -> untyped_nodes (flatten t1) /\ untyped_nodes (flatten t2)) ->
+  cx_one_point (flatten t1) (flatten t2) ds = Ok ((o1, o2), ds') ->
+  exists t1' t2', o1 = flatten t1' /\ o2 = flatten t2' /\ typed sub top1 t1' /\ typed sub top2 t2' /\
+    (size t1' + size t2' = size t1 + size t2)%nat.
+Proof. exact cx_one_point_closed. Qed.
+Print Assumptions C11_cx_one_point_closed_partial.
 
 Theorem C11_cx_leaf_biased_closed : forall sub pn pd top1 top2 t1 t2 ds o1 o2 ds',
   typed sub top1 t1 -> typed sub top2 t2 ->
@@ -254,6 +303,14 @@ Theorem C11_add_establishes_pset_ok : forall sub,
   let s := build sub ops in pset_ok sub (mkpset (s_prims s) (s_terms s) r rn rd).
 Proof. exact build_pset_ok. Qed.
 Print Assumptions C11_add_establishes_pset_ok.
+
+(* the same with defaultdict reads interleaved (a read of a missing key creates an empty pool) *)
+Theorem C11_tables_sound_with_reads : forall sub,
+  (forall a b c, sub a b = true -> sub b c = true -> sub a c = true) ->
+  forall ops r rn rd, Forall pop_ok ops ->
+  let s := run_pops sub ops in pset_ok sub (mkpset (s_prims s) (s_terms s) r rn rd).
+Proof. exact run_pops_pset_ok. Qed.
+Print Assumptions C11_tables_sound_with_reads.
 
 (* and the pools are complete: every node added so far that returns a subtype of a registered type
    is listed there (so a node is always a candidate for replacing itself) *)
